@@ -572,7 +572,8 @@ structure TickRec where
   tick : Nat
   shutdown : Bool
   pre : Vm                                -- the VM `Step` was called on (after injection)
-  post : Vm                               -- the VM after `Step` and the output handshake
+  stepped : Vm                            -- the VM `Step` returned
+  post : Vm                               -- ... after the output handshake (what is shown/reported)
   shown : List (Nat × String × Nat)       -- (slot, type, value) printed by show rules
   reported : Option (List (Nat × String × Nat))   -- CSV row (if a row is written)
   fatal : Nat                             -- 0 no; 1 run aborted while showing; 2 while reporting
@@ -605,17 +606,18 @@ def iteration (step : Vm → Vm) (c : Compiled) (stopOn : Option Nat) (report : 
       | some k => readD s.vm (.outValid k) == 1
       | none => false
     let pre := if shutdown then s.vm else injected c.sh c.acts t s.vm
-    let post := if shutdown then s.vm else ackOutputs c.sh.nOut (step pre)
+    let stepped := if shutdown then s.vm else step pre
+    let post := if shutdown then s.vm else ackOutputs c.sh.nOut stepped
     if hasZeroPeriod c.shows then
-      { s with done := true, trace := s.trace ++ [⟨t, shutdown, pre, post, [], none, 1⟩] }
+      { s with done := true, trace := s.trace ++ [⟨t, shutdown, pre, stepped, post, [], none, 1⟩] }
     else
       let (shown, badS) := slotValues c.shows post (firedSlots c.shows t s.old post shutdown true)
       if badS then
-        { s with done := true, trace := s.trace ++ [⟨t, shutdown, pre, post, shown, none, 1⟩] }
+        { s with done := true, trace := s.trace ++ [⟨t, shutdown, pre, stepped, post, shown, none, 1⟩] }
       else
         let (row, badR) := if report then reportRow c t post else (none, false)
         { vm := post, old := if shutdown then s.old else post, done := shutdown || badR,
-          trace := s.trace ++ [⟨t, shutdown, pre, post, shown, row, if badR then 2 else 0⟩] }
+          trace := s.trace ++ [⟨t, shutdown, pre, stepped, post, shown, row, if badR then 2 else 0⟩] }
 
 /-- the whole simulation: `ticks` iterations from `vm0` (the "old" copy starts equal to `vm0`) -/
 def simLoop (step : Vm → Vm) (c : Compiled) (stopOn : Option Nat) (report : Bool) (ticks : Nat)
